@@ -15,7 +15,8 @@ from grammar import Grammar
 from lrref import CFG, canonical_lr1, lalr_from_lr1, tables, lr_run, classify, derivations
 
 PAYLOAD_TYPE = 'crate::payload::P'
-SKIP, END, LEAF_UNIT = 0xFE, 0xFF, 0xFD
+SKIP, END, LEAF_UNIT, DEEP = 0xFE, 0xFF, 0xFD, 0xFC
+STEP_DEPTH = 3
 
 
 class OracleError(Exception):
@@ -158,7 +159,8 @@ def walker_src(g: Grammar, G='super::') -> str:
     out = []
     for nt in g.nonterminals:
         rules_of = [r for r in g.rules() if r.type_name == nt.name]
-        out.append('pub fn walk_%s(node: &%s%s, tr: &mut Trace) {' % (nt.name, G, nt.name))
+        out.append('pub fn walk_%s(node: &%s%s, tr: &mut Trace, depth: u32) {' % (nt.name, G, nt.name))
+        out.append('    if depth == 0 { tr.push(%d, 0); return; }' % DEEP)
 
         def body(rule, binder_prefix):
             fs = rule.fieldset
@@ -170,7 +172,7 @@ def walker_src(g: Grammar, G='super::') -> str:
                 var = '%s%d' % (binder_prefix, i)
                 if f.sym.kind == 'N':
                     lines.append('let %s: &BoxT<%s%s> = %s;' % (var, G, f.sym.name, var))
-                    lines.append('walk_%s(&**%s, tr);' % (f.sym.name, var))
+                    lines.append('walk_%s(&**%s, tr, depth - 1);' % (f.sym.name, var))
                 else:
                     ty = types[f.sym.name]
                     lines.append('let %s: &%s = %s;' % (var, ty, var))
@@ -238,8 +240,9 @@ class MinTrees:
     def productive_rule(self, r):
         return all(sy.kind == 'T' or self.size[sy.name] < self.INF for sy in r.rhs)
 
-    def build_rule(self, r, ctr, G='super::'):
-        """(rust constructor expression, expected trace list) for a node built by rule r; ctr = [next leaf tag]."""
+    def build_rule(self, r, ctr, G='super::', depth=64):
+        """(rust constructor expression, expected trace list) for a node built by rule r; ctr = [next leaf tag].
+        The walker stops at `depth` levels (marker DEEP); the expression is always complete."""
         fs = r.fieldset
         trace = [r.index]
         args = []
@@ -259,12 +262,14 @@ class MinTrees:
                 else:
                     trace.append(SKIP)
             else:
-                sub_expr, sub_trace = self.build_rule(self.best[f.sym.name], ctr, G)
+                sub_expr, sub_trace = self.build_rule(self.best[f.sym.name], ctr, G, depth - 1)
                 if f.used:
                     trace += sub_trace
                     args.append((f, 'Box::new(%s)' % sub_expr))
                 else:
                     trace.append(SKIP)
+        if depth <= 0:
+            trace = [DEEP]
         path = G + r.type_name + ('::' + r.variant if r.variant else '')
         if not args:
             expr = path
@@ -301,7 +306,7 @@ def reduce_steps(g: Grammar, e):
                 pushes.append('nodes.push(%s::%s(%s));' % (e.node_enum, f.sym.name, val))
                 trace.append(code if f.used else SKIP)
             else:
-                sub_expr, sub_trace = M.build_rule(M.best[f.sym.name], ctr)
+                sub_expr, sub_trace = M.build_rule(M.best[f.sym.name], ctr, depth=STEP_DEPTH - 1)
                 pushes.append('nodes.push(%s::%s(%s));' % (e.node_enum, f.sym.name, sub_expr))
                 if f.used:
                     trace += sub_trace
@@ -321,7 +326,7 @@ def reduce_steps(g: Grammar, e):
         body.append('    assert!(nodes.len() == 0, "C01 reduce does not pop |rhs| nodes");')
         body.append('    assert!(kind as usize == %d, "C01 reduce returns the wrong nonterminal kind");' % lhs_idx)
         body.append('    match &node {')
-        body.append('        %s::%s(x) => { walk_%s(x, tr); true }' % (e.node_enum, r.lhs, r.lhs))
+        body.append('        %s::%s(x) => { walk_%s(x, tr, %d); true }' % (e.node_enum, r.lhs, r.lhs, STEP_DEPTH))
         body.append('        _ => false,')
         body.append('    }')
         body.append('}')
@@ -342,7 +347,7 @@ fn run_reduce_step_%(r)d(vals: [u8; %(nl)d]) {
     while k < %(tl)d {
         let e = STEP_EXPECT_%(r)d[k];
         assert!(tr.code[k] == e, "C02 reduce puts a child into the wrong field (or drops / keeps the wrong one)");
-        if e >= 0x80 && e < 0xFD {
+        if e >= 0x80 && e < 0xFC {
             assert!(tr.val[k] == vals[(e - 0x80) as usize], "C02 reduce modifies a payload");
         }
         k += 1;
@@ -452,7 +457,7 @@ fn run_and_check_%(n)d(kinds: [u8; %(n)d], vals: [u8; %(n)d]) -> u8 {
             assert!(pulls == %(n)d + 1, "C03 pulls on accept");
             // C02: faithful derivation tree with the original payloads
             let mut tr = Trace::new();
-            g::verif_walk::walk_%(start)s(tree, &mut tr);
+            g::verif_walk::walk_%(start)s(tree, &mut tr, 64);
             assert!(!tr.overflow, "C02 tree larger than any derivation of this input");
             let mut k = 0;
             while k < TRACE_CAP {
@@ -462,7 +467,7 @@ fn run_and_check_%(n)d(kinds: [u8; %(n)d], vals: [u8; %(n)d]) -> u8 {
                     break;
                 }
                 assert!(k < tr.len, "C02 tree is missing nodes");
-                if e >= 0x80 && e < 0xFD {
+                if e >= 0x80 && e < 0xFC {
                     let pos = (e - 0x80) as usize;
                     assert!(tr.code[k] == e, "C02 field holds the payload of another token");
                     assert!(tr.val[k] == vals[pos], "C02 payload modified");
